@@ -144,3 +144,100 @@ Proof.
     split; [reflexivity|]. split; [first [exact E | reflexivity]|]. split; [exact W|]. split; [reflexivity|].
     apply Valid_concat. exact Fb.
 Qed.
+
+(* ---------- from_utf16_in ---------- *)
+Lemma decode_utf16_scalar : forall n us cps, (length us <= n)%nat -> Forall (fun u => u < 65536) us ->
+  decode_utf16 us = Some cps -> Forall (fun cp => scalar cp = true) cps.
+Proof.
+  induction n as [|n IH]; intros us cps L B H.
+  - destruct us; [cbn in H; injection H as <-; constructor | cbn in L; lia].
+  - destruct us as [|u r]; [cbn in H; injection H as <-; constructor|].
+    cbn [decode_utf16] in H. inversion B as [|? ? Bu Br]; subst.
+    destruct ((u <? 55296) || (57343 <? u)) eqn:E1.
+    + destruct (decode_utf16 r) as [cps'|] eqn:ER; [|discriminate]. injection H as <-.
+      constructor; [apply scalar_spec; lia | apply (IH r cps'); [cbn in L; lia | exact Br | exact ER]].
+    + destruct (u <=? 56319) eqn:E2; [|discriminate].
+      destruct r as [|lo r2]; [discriminate|].
+      destruct (in_range 56320 57343 lo) eqn:E3; [|discriminate].
+      destruct (decode_utf16 r2) as [cps'|] eqn:ER; [|discriminate]. injection H as <-.
+      inversion Br as [|? ? Blo Br2]; subst.
+      constructor; [apply scalar_spec; cbv [in_range] in E3; unfold surrogate_pair; lia|].
+      apply (IH r2 cps'); [cbn in L; lia | exact Br2 | exact ER].
+Qed.
+
+(* whatever from_utf16_in accepts is valid UTF-8: the concatenation of the encodings of scalar values *)
+Theorem from_utf16_valid us bs : Forall (fun u => u < 65536) us -> from_utf16 us = Some bs -> Valid bs.
+Proof.
+  intros B H. unfold from_utf16 in H. destruct (decode_utf16 us) as [cps|] eqn:E; [|discriminate].
+  inversion H; subst. pose proof (decode_utf16_scalar (length us) us cps (Nat.le_refl _) B E) as S.
+  clear E H. induction S as [|cp r Hs _ IH]; cbn [map concat]; [constructor|].
+  apply Valid_app; [apply Valid_single, encode_wf; exact Hs | exact IH].
+Qed.
+
+(* it refuses exactly the inputs with an unpaired surrogate *)
+Theorem from_utf16_lone_low u r : in_range 56320 57343 u = true -> from_utf16 (u :: r) = None.
+Proof.
+  intros H. unfold from_utf16. cbn [decode_utf16].
+  replace ((u <? 55296) || (57343 <? u)) with false by (cbv [in_range] in H; lia).
+  replace (u <=? 56319) with false by (cbv [in_range] in H; lia). reflexivity.
+Qed.
+
+Theorem from_utf16_lone_high u r : in_range 55296 56319 u = true ->
+  (match r with lo :: _ => in_range 56320 57343 lo = false | [] => True end) -> from_utf16 (u :: r) = None.
+Proof.
+  intros H Hr. unfold from_utf16. cbn [decode_utf16].
+  replace ((u <? 55296) || (57343 <? u)) with false by (cbv [in_range] in H; lia).
+  replace (u <=? 56319) with true by (cbv [in_range] in H; lia).
+  destruct r as [|lo r2]; [reflexivity|]. rewrite Hr. reflexivity.
+Qed.
+
+(* from_utf16_in accepts exactly the well-formed UTF-16 texts, and yields the UTF-8 of the same scalar values *)
+Theorem decode_utf16_enc16 cps : Forall (fun cp => scalar cp = true) cps ->
+  decode_utf16 (concat (map enc16 cps)) = Some cps.
+Proof.
+  induction 1 as [|cp r S _ IH]; [reflexivity|]. apply scalar_spec in S.
+  cbn [map concat]. unfold enc16 at 1. destruct (cp <? 65536) eqn:E.
+  - cbn [List.app decode_utf16]. replace ((cp <? 55296) || (57343 <? cp)) with true by lia. rewrite IH. reflexivity.
+  - cbn [List.app decode_utf16].
+    replace ((55296 + (cp - 65536) / 1024 <? 55296) || (57343 <? 55296 + (cp - 65536) / 1024)) with false by lia.
+    replace (55296 + (cp - 65536) / 1024 <=? 56319) with true by lia.
+    replace (in_range 56320 57343 (56320 + (cp - 65536) mod 1024)) with true by (cbv [in_range]; lia).
+    rewrite IH. f_equal. f_equal. unfold surrogate_pair. lia.
+Qed.
+
+Theorem from_utf16_roundtrip cps : Forall (fun cp => scalar cp = true) cps ->
+  from_utf16 (concat (map enc16 cps)) = Some (concat (map encode cps)).
+Proof. intros S. unfold from_utf16. rewrite (decode_utf16_enc16 cps S). reflexivity. Qed.
+
+Lemma decode_utf16_complete : forall n us cps, (length us <= n)%nat -> Forall (fun u => u < 65536) us ->
+  decode_utf16 us = Some cps -> us = concat (map enc16 cps).
+Proof.
+  induction n as [|n IH]; intros us cps L B H.
+  - destruct us; [cbn in H; injection H as <-; reflexivity | cbn in L; lia].
+  - destruct us as [|u r]; [cbn in H; injection H as <-; reflexivity|].
+    cbn [decode_utf16] in H. inversion B as [|? ? Bu Br]; subst.
+    destruct ((u <? 55296) || (57343 <? u)) eqn:E1.
+    + destruct (decode_utf16 r) as [cps'|] eqn:ER; [|discriminate]. injection H as <-.
+      cbn [map concat]. unfold enc16 at 1. replace (u <? 65536) with true by lia. cbn [List.app]. f_equal.
+      apply (IH r cps'); [cbn in L; lia | exact Br | exact ER].
+    + destruct (u <=? 56319) eqn:E2; [|discriminate].
+      destruct r as [|lo r2]; [discriminate|].
+      destruct (in_range 56320 57343 lo) eqn:E3; [|discriminate].
+      destruct (decode_utf16 r2) as [cps'|] eqn:ER; [|discriminate]. injection H as <-.
+      inversion Br as [|? ? Blo Br2]; subst. cbv [in_range] in E3.
+      cbn [map concat]. unfold enc16 at 1. unfold surrogate_pair.
+      replace (65536 + (u - 55296) * 1024 + (lo - 56320) <? 65536) with false by lia. cbn [List.app].
+      replace (65536 + (u - 55296) * 1024 + (lo - 56320) - 65536) with ((u - 55296) * 1024 + (lo - 56320)) by lia.
+      f_equal; [lia|]. f_equal; [lia|].
+      apply (IH r2 cps'); [cbn in L; lia | exact Br2 | exact ER].
+Qed.
+
+Theorem from_utf16_exact us : Forall (fun u => u < 65536) us ->
+  (exists bs, from_utf16 us = Some bs) <->
+  (exists cps, Forall (fun cp => scalar cp = true) cps /\ us = concat (map enc16 cps)).
+Proof.
+  intros B. split.
+  - intros [bs H]. unfold from_utf16 in H. destruct (decode_utf16 us) as [cps|] eqn:E; [|discriminate].
+    exists cps. split; [exact (decode_utf16_scalar _ us cps (Nat.le_refl _) B E) | exact (decode_utf16_complete _ us cps (Nat.le_refl _) B E)].
+  - intros [cps [S ->]]. eexists. apply from_utf16_roundtrip. exact S.
+Qed.
